@@ -17,14 +17,22 @@ META = {
 }
 
 
+def _fanout(om):
+    """(loop AST, CFG node) of the handler fan-out in the EVENT arm: the for-loop that contains the handler invocation
+    txaio.as_future(handler.fn, ...)."""
+    nodes = om.arm_nodes("Event")
+    for n in nodes:
+        if n.kind == "for" and any(isinstance(c, ast.Call) and call_name(c) == "txaio.as_future" and c.args and norm.text(c.args[0]).endswith(".fn") for c in ast.walk(n.ast)):
+            return n.ast, n
+    raise AnalysisError("EVENT arm: handler fan-out loop not found")
+
+
 def rule_no_shared_mutation(ctx):
     ctx.rule("C11.1-no-shared-payload-mutation")
     om = get_onmessage(ctx)
     g, mf, res = om.g, om.mf, om.res
     nodes = om.arm_nodes("Event")
-    loops = [n for n in nodes if n.kind == "for" and norm.text(n.ast.iter) == "self._subscriptions[msg.subscription]"]
-    ctx.require(len(loops) == 1, "EVENT arm: handler fan-out loop not found")
-    L = loops[0].ast
+    L, _ln = _fanout(om)
     # may-alias sets: name -> set of message-state expressions it may alias
     invariant = {"msg.kwargs", "msg.args", "msg"}
     alias = {}
@@ -89,8 +97,7 @@ def rule_isolation(ctx):
     rr = [s for s in walk_no_defs(sw.node) if isinstance(s, ast.Return)]
     ctx.ob("_swallow_error cancels the error (returns None, never raises)", len(rr) == 1 and norm.text(rr[0].value) == "None" and not any(isinstance(s, ast.Raise) for s in walk_no_defs(sw.node)), "changed", sw.loc())
     # nothing in the loop raises; early exits only on the payload-decryption failure paths
-    loops = [n for n in nodes if n.kind == "for" and norm.text(n.ast.iter) == "self._subscriptions[msg.subscription]"]
-    L = loops[0].ast
+    L, _ln = _fanout(om)
     raises = [s for s in walk_no_defs(L) if isinstance(s, ast.Raise)]
     ctx.ob("nothing in the fan-out loop raises", not raises, f"{[stmt_key(r)[:40] for r in raises]}", om.fn.loc())
     for n in nodes:
@@ -100,64 +107,234 @@ def rule_isolation(ctx):
 
 
 def rule_arguments(ctx):
+    """What each handler receives, decided cell by cell over (bound object, published args, published kwargs, details requested)."""
+    from ..core.tiny import Tiny, Sym
     ctx.rule("C11.3-handler-arguments")
     om = get_onmessage(ctx)
-    g, mf, res = om.g, om.mf, om.res
-    nodes = om.arm_nodes("Event")
-    ia = [(n, norm.text(n.ast.value)) for n in nodes if n.kind == "stmt" and isinstance(n.ast, ast.Assign) and norm.text(n.ast.targets[0]) == "invoke_args"]
-    ctx.ob("positional arguments = (handler.obj,)? + tuple(msg.args)", sorted(v for _, v in ia) == sorted(["(handler.obj,) if handler.obj else tuple()", "invoke_args + tuple(msg.args)"]), f"{[v for _, v in ia]}", om.fn.loc())
-    for n, v in ia:
-        if "msg.args" in v:
-            ctx.ob("msg.args unpacked only when present", ("truth", "msg.args", None, True) in mf.at(n), "tuple(None)", om.fn.loc(n.ast))
-    ik = [(n, n.ast.value) for n in nodes if n.kind == "stmt" and isinstance(n.ast, ast.Assign) and norm.text(n.ast.targets[0]) == "invoke_kwargs"]
-    ctx.ob("keyword arguments come from msg.kwargs", len(ik) == 1 and "msg.kwargs" in norm.text(ik[0][1]), f"{[norm.text(v) for _, v in ik]}", om.fn.loc())
-    det = [n for n in nodes if n.kind == "stmt" and isinstance(n.ast, ast.Assign) and norm.text(n.ast.targets[0]) == "invoke_kwargs[handler.details_arg]"]
-    ok = len(det) == 1 and ("truth", "handler.details_arg", None, True) in mf.at(det[0])
-    ctx.ob("event details only for handlers that asked for them", ok, "details injected for every handler", om.fn.loc())
-    if det:
-        c = det[0].ast.value
-        ok = isinstance(c, ast.Call) and call_name(c) == "types.EventDetails" and [norm.text(a) for a in c.args[:2]] == ["subscription", "msg.publication"]
-        ctx.ob("details built from this handler's subscription and the event's publication id", ok, "EventDetails arguments changed", om.fn.loc(det[0].ast))
-    hd = [n for n in nodes if n.kind == "stmt" and isinstance(n.ast, ast.Assign) and norm.text(n.ast.targets[0]) == "handler"]
-    ctx.ob("handler is the loop subscription's handler", len(hd) == 1 and norm.text(hd[0].ast.value) == "subscription.handler", "changed", om.fn.loc())
+    L, ln = _fanout(om)
+    calls = [c for c in ast.walk(L) if isinstance(c, ast.Call) and call_name(c) == "txaio.as_future" and c.args and norm.text(c.args[0]).endswith(".fn")]
+    ctx.require(len(calls) == 1, "EVENT arm: handler invocation not found")
+    ec = calls[0]
+    H = norm.text(ec.args[0])[:-3]
+    star = [a for a in ec.args[1:] if isinstance(a, ast.Starred)]
+    dstar = [k for k in ec.keywords if k.arg is None]
+    ok = len(ec.args) == 2 and len(star) == 1 and isinstance(star[0].value, ast.Name) and len(dstar) == 1 and isinstance(dstar[0].value, ast.Name) and len(ec.keywords) == 1
+    ctx.ob("handler invoked with (*<positional>, **<keywords>) only", ok, "handler call changed", om.fn.loc(ec))
+    hdef = [s_ for s_ in ast.walk(L) if isinstance(s_, ast.Assign) and norm.text(s_.targets[0]) == H]
+    ctx.ob("handler is the loop subscription's handler", len(hdef) == 1 and isinstance(L.target, ast.Name) and norm.text(hdef[0].value) == f"{L.target.id}.handler", "changed", om.fn.loc())
+    if not ok:
+        return
+    # evaluate the whole EVENT branch on a table with three handlers of different kinds
+    ev_body = _arm_body(om, "Event")
+    problems = []
+    try:
+        for args in (None, [], [Sym("a0")]):
+            for kw in (None, {}, {"k": Sym("v")}):
+                kinds = [(None, None), (Sym("obj"), "details"), (Sym("obj0", truthy=False), "d")]
+                subs_ = []
+                for i, (obj, det) in enumerate(kinds):
+                    h = Sym(f"handler{i}", fn=Sym(f"fn{i}"), obj=obj, details_arg=det)
+                    subs_.append(Sym(f"subscription{i}", handler=h, topic="com.topic", id=55, active=True))
+                kw0 = dict(kw) if kw is not None else None
+                env = {"msg.subscription": 55, "self._subscriptions": {55: subs_}, "self": Sym("session"), "msg.args": args, "msg.kwargs": kw, "msg.publication": 4711,
+                       "msg.topic": None, "msg.enc_algo": None, "msg.x_acknowledged_delivery": None}
+                for nm in ("publisher", "publisher_authid", "publisher_authrole", "transaction_hash", "retained", "forward_for", "payload", "enc_serializer", "enc_key"):
+                    env[f"msg.{nm}"] = None
+                invoked = []
+
+                def default(fname, a_, k_=None):
+                    if fname == "txaio.as_future":
+                        invoked.append((a_[0], list(a_[1:]), dict(k_ or {})))
+                        return Sym("future")
+                    if fname == "types.EventDetails":
+                        return Sym("details", args=list(a_))
+                    return Sym(f"<{fname}>")
+                t = Tiny(env, default_call=default)
+                r = t.run(ev_body)
+                if r[0] not in ("fall", "return"):
+                    problems.append(f"published args {args}, kwargs {kw0}: delivery ends with {r}")
+                    continue
+                if [x[0] for x in invoked] != [s_.attrs["handler"].attrs["fn"] for s_ in subs_]:
+                    problems.append(f"published args {args}, kwargs {kw0}: handlers invoked {[x[0] for x in invoked]}, expected each of the three once, in subscription order")
+                    continue
+                for (fn_, got_a, got_k), s_ in zip(invoked, subs_):
+                    h = s_.attrs["handler"]
+                    obj, det = h.attrs["obj"], h.attrs["details_arg"]
+                    want_a = ([obj] if obj is not None else []) + list(args or [])
+                    if not (len(got_a) == len(want_a) and all(x is y for x, y in zip(got_a, want_a))):
+                        problems.append(f"handler bound to {obj}, published args {args}: gets positional {got_a}, expected {want_a}")
+                    if {k_: v_ for k_, v_ in got_k.items() if k_ != det} != dict(kw0 or {}) or ((det in got_k) != (det is not None)):
+                        problems.append(f"handler with details_arg {det!r}, published kwargs {kw0}: gets keywords {got_k}")
+                    if det is not None and det in got_k:
+                        d = got_k[det]
+                        if not (isinstance(d, Sym) and d.name == "details" and len(d.attrs["args"]) >= 2 and d.attrs["args"][0] is s_ and d.attrs["args"][1] == 4711):
+                            problems.append(f"{s_.name}: the event details it gets are not built from its own subscription and the event's publication id")
+                if kw is not None and kw != kw0:
+                    problems.append(f"published kwargs {kw0}: the event's own kwargs dict was modified to {kw} while fanning out")
+        ctx.ob("every handler of the id is invoked once, in order, with (bound object if any) + the published args, the published kwargs and its own details iff requested "
+               "[3 handler kinds x 9 payload shapes]", not problems, "; ".join(sorted(set(problems))[:2]), om.fn.loc(ec))
+    except AnalysisError as e:
+        raise AnalysisError(f"[C11.3-handler-arguments] EVENT branch outside the modelled subset: {e}")
+
+
+def _arm_body(om, arm):
+    """Statement list of the `isinstance(msg, message.<arm>)` branch of onMessage."""
+    for x in ast.walk(om.fn.node):
+        if isinstance(x, ast.If) and norm.atoms(x.test, True, om.res) == [("isinst", "msg", f"message.{arm}", True)]:
+            return x.body
+    raise AnalysisError(f"onMessage: {arm} arm not found")
+
+
+def _mk_calls(trace_sends):
+    from ..core.tiny import Sym
+
+    def default(fname, args):
+        if fname == "Subscription" and len(args) == 4:
+            return Sym("new-subscription", id=args[0], topic=args[1], session=args[2], handler=args[3], active=True)
+        if fname == "txaio.is_future":
+            return True
+        if fname == "txaio.is_called":
+            return False
+        if fname == "isinstance":
+            return True
+        if fname.endswith("._transport.send"):
+            trace_sends.append(args)
+            return None
+        return Sym(f"<{fname}>", args=args)
+    return default
+
+
+def _event_visit(ev_body, table):
+    """Evaluate the EVENT branch on `table` (id 55): ('raise', what) or ('ok', [subscriptions whose handler was invoked, in order])."""
+    from ..core.tiny import Tiny, Sym
+    env = {"msg.subscription": 55, "self._subscriptions": table, "self": Sym("session"), "msg.args": None, "msg.kwargs": None, "msg.publication": 1,
+           "msg.topic": None, "msg.enc_algo": None, "msg.x_acknowledged_delivery": None}
+    for nm in ("publisher", "publisher_authid", "publisher_authrole", "transaction_hash", "retained", "forward_for", "payload", "enc_serializer", "enc_key"):
+        env[f"msg.{nm}"] = None
+    fns = []
+
+    def default(fname, a_, k_=None):
+        if fname == "txaio.as_future":
+            fns.append(a_[0])
+        return Sym(f"<{fname}>")
+    r = Tiny(env, default_call=default).run(ev_body)
+    if r[0] == "raise":
+        return "raise", r[1]
+    visited = []
+    for f in fns:
+        for lst in table.values():
+            for s_ in lst:
+                h = s_.attrs.get("handler")
+                if isinstance(h, Sym) and h.attrs.get("fn") is f:
+                    visited.append(s_)
+    return "ok", visited
 
 
 def rule_lists(ctx):
+    """The subscription table {id: [handler subscriptions]} is maintained so that every EVENT sees exactly the handlers attached at
+    that moment. Decided by cell-wise abstract evaluation of the four code pieces on a data-independent small model of the table
+    (id absent / empty list / one / several handlers, target first / middle / last): spelling (setdefault, pop, get, del, renamed
+    locals, swapped branches) is irrelevant, only the resulting table counts."""
+    from ..core.tiny import Tiny, Sym
     ctx.rule("C11.4-handler-list-maintenance")
     om = get_onmessage(ctx)
     an = om.an
-    g, mf, res = om.g, om.mf, om.res
-    nodes = om.arm_nodes("Subscribed")
-    app = [(n, c) for n in nodes for c in node_calls(n) if isinstance(c.func, ast.Attribute) and c.func.attr in ("append", "insert", "extend") and "self._subscriptions" in norm.text(c.func.value)]
-    ok = len(app) == 1 and app[0][1].func.attr == "append" and norm.text(app[0][1].func.value) == "self._subscriptions[msg.subscription]" and norm.text(app[0][1].args[0]) == "subscription"
-    ctx.ob("SUBSCRIBED: handler appended at the end of the id's list (subscription order)", ok, "append changed", om.fn.loc())
-    cr = [n for n in nodes if n.kind == "stmt" and isinstance(n.ast, ast.Assign) and norm.text(n.ast.targets[0]) == "self._subscriptions[msg.subscription]"]
-    ok = len(cr) == 1 and norm.text(cr[0].ast.value) == "[]" and ("in", "msg.subscription", ("e", "self._subscriptions"), False) in mf.at(cr[0])
-    ctx.ob("SUBSCRIBED: list created only when the id is new", ok, "existing handler list overwritten", om.fn.loc())
-    sub = [n for n in nodes if n.kind == "stmt" and isinstance(n.ast, ast.Assign) and norm.text(n.ast.targets[0]) == "subscription"]
-    ok = len(sub) == 1 and norm.text(sub[0].ast.value) == "Subscription(msg.subscription, request.topic, self, request.handler)"
-    ctx.ob("SUBSCRIBED: subscription object built from the reply id and the request's topic/handler", ok, "changed", om.fn.loc())
-    # _unsubscribe
-    fn = ctx.program.func(f"{APPSESSION}._unsubscribe")
-    ctx.analysed(fn)
-    g2, mf2, res2 = an.get(fn)
-    rm = [(n, c) for n in g2.stmt_nodes() for c in node_calls(n) if norm.text(c.func) == "self._subscriptions[subscription.id].remove"]
-    inact = [n for n in g2.stmt_nodes() if n.kind == "stmt" and isinstance(n.ast, ast.Assign) and norm.text(n.ast.targets[0]) == "subscription.active" and norm.text(n.ast.value) == "False"]
-    cnt = [n for n in g2.stmt_nodes() if n.kind == "stmt" and isinstance(n.ast, ast.Assign) and norm.text(n.ast.targets[0]) == "scount"]
-    ok = len(rm) == 1 and norm.text(rm[0][1].args[0]) == "subscription" and len(inact) == 1 and len(cnt) == 1 and norm.text(cnt[0].ast.value) == "len(self._subscriptions[subscription.id])" and \
-        g2.always_preceded_by(cnt[0], lambda x: x is rm[0][0]) and g2.always_preceded_by(cnt[0], lambda x: x is inact[0])
-    ctx.ob("_unsubscribe: handler removed and deactivated before the remaining handlers are counted", ok, "order changed", fn.loc())
-    sends = [(n, c) for n in g2.stmt_nodes() for c in node_calls(n) if norm.text(c.func) == "self._transport.send"]
-    ok = len(sends) == 1 and ("eq", "scount", ("c", 0), True) in mf2.at(sends[0][0])
-    ctx.ob("_unsubscribe: UNSUBSCRIBE sent exactly when no handler is left (count == 0)", ok, "UNSUBSCRIBE condition changed", fn.loc())
-    other = [n for n in g2.stmt_nodes() if n.kind == "stmt" and isinstance(n.ast, ast.Return) and ("eq", "scount", ("c", 0), False) in mf2.at(n)]
-    ctx.ob("_unsubscribe: otherwise completes locally without a message", len(other) == 1 and "create_future_success" in norm.text(other[0].ast.value), "changed", fn.loc())
-    # Unsubscribed arm
-    nodes = om.arm_nodes("Unsubscribed")
-    dl = [n for n in nodes if n.kind == "stmt" and isinstance(n.ast, ast.Delete) and norm.text(n.ast.targets[0]) == "self._subscriptions[request.subscription_id]"]
-    ia = [n for n in nodes if n.kind == "stmt" and isinstance(n.ast, ast.Assign) and norm.text(n.ast.targets[0]) == "subscription.active" and norm.text(n.ast.value) == "False"]
-    ok = len(dl) == 1 and len(ia) == 1 and ("in", "request.subscription_id", ("e", "self._subscriptions"), True) in mf.at(dl[0])
-    ctx.ob("UNSUBSCRIBED: remaining handlers deactivated and the id forgotten", ok, "changed", om.fn.loc())
+    problems = {"sub": [], "unsub": [], "unsubd": [], "event": []}
+
+    def subs(n, sid=55):
+        return [Sym(f"s{i}", id=sid, active=True, topic="com.topic", handler=Sym(f"h{i}", fn=Sym(f"fn{sid}_{i}"), obj=None, details_arg=None)) for i in range(n)]
+    try:
+        # --- SUBSCRIBED
+        body = _arm_body(om, "Subscribed")
+        for shape in ("absent", 0, 1, 3):
+            other = subs(1, 99)
+            old = [] if shape == "absent" else subs(shape)
+            table = {99: other}
+            if shape != "absent":
+                table[55] = old
+            before = list(old)
+            req = Sym("subscribe-request", on_reply=Sym("future"), topic="com.topic", handler=Sym("H"))
+            sends = []
+            t = Tiny({"msg.request": 7, "msg.subscription": 55, "self._subscribe_reqs": {7: req}, "self._subscriptions": table, "self": Sym("session")},
+                     default_call=_mk_calls(sends))
+            r = t.run(body)
+            now = table.get(55)
+            ok = r[0] in ("fall", "return") and isinstance(now, list) and len(now) == len(before) + 1 and all(a is b for a, b in zip(now, before)) and \
+                isinstance(now[-1], Sym) and now[-1].attrs.get("handler") is req.attrs["handler"] and now[-1].attrs.get("id") == 55 and table.get(99) is other and len(other) == 1 \
+                and 7 not in t.env["self._subscribe_reqs"]
+            if not ok:
+                problems["sub"].append(f"table had id 55 {shape if shape == 'absent' else 'with %d handler(s)' % shape}: afterwards {now} ({r[0]})")
+        ctx.ob("SUBSCRIBED: the new handler is appended at the end of the id's handler list, existing handlers and other ids untouched, request retired [4 table shapes]",
+               not problems["sub"], "; ".join(problems["sub"][:2]), om.fn.loc())
+        # --- _unsubscribe + racing EVENT lookup
+        fn = ctx.program.func(f"{APPSESSION}._unsubscribe")
+        ctx.analysed(fn)
+        ev_body = _arm_body(om, "Event")
+        lookup = ev_body[0]
+        body_u = [x for x in fn.node.body if not (isinstance(x, ast.Expr) and isinstance(x.value, ast.Constant))]
+        for n, pos in ((1, 0), (2, 0), (2, 1), (3, 1)):
+            lst = subs(n)
+            target = lst[pos]
+            other = subs(1, 99)
+            table = {55: lst, 99: other}
+            before = list(lst)
+            sends = []
+            t = Tiny({fn.params()[1]: target, "self._subscriptions": table, "self._transport": Sym("transport"), "self._unsubscribe_reqs": {}, "self": Sym("session")},
+                     default_call=_mk_calls(sends))
+            r = t.run(body_u)
+            now = table.get(55)
+            want = [x for x in before if x is not target]
+            ok = r[0] == "return" and (now is None and not want or isinstance(now, list) and len(now) == len(want) and all(a is b for a, b in zip(now, want))) and \
+                target.attrs.get("active") is False and all(x.attrs.get("active") is True for x in want) and (len(sends) == 1) == (not want) and len(other) == 1
+            if not ok:
+                problems["unsub"].append(f"{n} handler(s), unsubscribing #{pos}: table id 55 -> {now}, target active={target.attrs.get('active')}, UNSUBSCRIBE sent {len(sends)}x ({r[0]})")
+            # an EVENT that races with the (not yet answered) unsubscribe must be dropped silently / reach exactly the remaining handlers
+            kind, visited = _event_visit(ev_body, table)
+            found = kind == "ok"
+            if not found:
+                problems["event"].append(f"after unsubscribing #{pos} of {n} (no UNSUBSCRIBED yet) an EVENT for the id is a ProtocolError instead of "
+                                         f"{'being dropped' if not want else 'reaching the remaining handlers'}")
+            elif not (isinstance(visited, list) and len(visited) == len(want) and all(a is b for a, b in zip(visited, want))):
+                problems["event"].append(f"after unsubscribing #{pos} of {n} an EVENT visits {visited}, expected {want}")
+        ctx.ob("_unsubscribe: exactly the given handler leaves the list and is deactivated; UNSUBSCRIBE goes out iff none is left [4 shapes]",
+               not problems["unsub"], "; ".join(problems["unsub"][:2]), fn.loc())
+        # --- EVENT lookup on plain tables
+        for shape in ("absent", 0, 2):
+            table = {99: subs(1, 99)}
+            lst = None
+            if shape != "absent":
+                lst = subs(shape)
+                table[55] = lst
+            kind, visited = _event_visit(ev_body, table)
+            found = kind == "ok"
+            if found != (shape != "absent"):
+                problems["event"].append(f"id {'never held' if shape == 'absent' else 'held with %d handlers' % shape}: lookup says {'known' if found else 'unknown (ProtocolError)'}")
+            elif found:
+                if not (isinstance(visited, list) and len(visited) == len(lst) and all(a is b for a, b in zip(visited, lst))):
+                    problems["event"].append(f"EVENT visits {visited}, expected the id's handler list in subscription order")
+        ctx.ob("EVENT: unknown id -> ProtocolError; a held id (even with no handler left) -> exactly its current handlers in order, silently none when empty",
+               not problems["event"], "; ".join(problems["event"][:2]), om.fn.loc(lookup))
+        # --- UNSUBSCRIBED
+        body = _arm_body(om, "Unsubscribed")
+        for shape in ("absent", 0, 2):
+            other = subs(1, 99)
+            table = {99: other}
+            lst = []
+            if shape != "absent":
+                lst = subs(shape)
+                table[55] = lst
+            held = list(lst)
+            req = Sym("unsubscribe-request", on_reply=Sym("future"), subscription_id=55)
+            t = Tiny({"msg.request": 9, "self._unsubscribe_reqs": {9: req}, "self._subscriptions": table, "self": Sym("session")}, default_call=_mk_calls([]))
+            r = t.run(body)
+            ok = r[0] in ("fall", "return") and 55 not in table and all(x.attrs.get("active") is False for x in held) and table.get(99) is other and other[0].attrs.get("active") is True \
+                and 9 not in t.env["self._unsubscribe_reqs"]
+            if not ok:
+                problems["unsubd"].append(f"id 55 {shape if shape == 'absent' else 'with %d handler(s)' % shape}: table afterwards {table} ({r})")
+        ctx.ob("UNSUBSCRIBED: the id is forgotten, handlers still listed are deactivated, other ids untouched, request retired [3 shapes]",
+               not problems["unsubd"], "; ".join(problems["unsubd"][:2]), om.fn.loc())
+    except AnalysisError as e:
+        raise AnalysisError(f"[C11.4-handler-list-maintenance] table maintenance code outside the modelled subset: {e}")
     # Subscription.unsubscribe delegates
     sc = ctx.program.cls("autobahn.wamp.request.Subscription")
     un = sc.methods.get("unsubscribe")
@@ -168,18 +345,45 @@ def rule_lists(ctx):
     ctx.ob("Subscription.unsubscribe: only an active subscription is unsubscribed", ok, "active check changed", un.loc())
 
 
+def rule_type_check(ctx):
+    """subscribe(..., check_types=True) wraps the handler: the wrapper must hand the handler exactly what it was called with."""
+    ctx.rule("C11.6-type-check-wrapper-forwards-arguments")
+    fn = ctx.program.func(f"{APPSESSION}.type_check")
+    ctx.analysed(fn)
+    clo = fn.nested_list()
+    ctx.require(len(clo) == 1, "type_check: wrapper closure not found")
+    w = clo[0]
+    va, ka = w.node.args.vararg, w.node.args.kwarg
+    ctx.ob("wrapper accepts any positional and keyword arguments", va is not None and ka is not None and not w.node.args.args, "wrapper signature changed", w.loc())
+    rets = [s_ for s_ in walk_no_defs(w.node) if isinstance(s_, ast.Return) and s_.value is not None]
+    ctx.require(len(rets) == 1, "type_check wrapper: single return expected")
+    v = rets[0].value
+    if isinstance(v, ast.Await):
+        v = v.value
+    wrapped = fn.params()[1]
+    ok = False
+    if isinstance(v, ast.Call) and va is not None and ka is not None:
+        pos = list(v.args)
+        if call_name(v) == "txaio.as_future" and pos and norm.text(pos[0]) == wrapped:
+            pos = pos[1:]
+            callee_ok = True
+        else:
+            callee_ok = norm.text(v.func) == wrapped
+        ok = callee_ok and len(pos) == 1 and isinstance(pos[0], ast.Starred) and norm.text(pos[0].value) == va.arg and \
+            len(v.keywords) == 1 and v.keywords[0].arg is None and norm.text(v.keywords[0].value) == ka.arg
+    ctx.ob("the wrapped handler is called with the wrapper's own (*args, **kwargs), unchanged", ok,
+           f"forwards `{ast.unparse(rets[0].value)[:80]}`: handlers with *args/**kwargs/positional-only parameters get re-packed arguments (or TypeError) instead of the published payload",
+           w.loc(rets[0]))
+    # an ill-typed payload is refused before the handler runs
+    raises = [s_ for s_ in walk_no_defs(w.node) if isinstance(s_, ast.Raise)]
+    ctx.ob("ill-typed payloads raise TypeCheckError before the handler is called", any("TypeCheckError" in ast.unparse(r) for r in raises) and
+           all(r.lineno < rets[0].lineno for r in raises), "type check no longer precedes the call", w.loc())
+
+
 def rule_unknown(ctx):
     ctx.rule("C11.5-unknown-subscription")
-    om = get_onmessage(ctx)
-    g, mf, res = om.g, om.mf, om.res
-    nodes = om.arm_nodes("Event")
-    t = [n for n in nodes if n.kind == "test" and norm.atoms(n.ast, True, res) == [("in", "msg.subscription", ("e", "self._subscriptions"), True)]]
-    ctx.require(len(t) == 1, "EVENT arm: subscription lookup not found")
-    fs = [m for m, lab in t[0].succ if lab and lab[0] == "F"]
-    ok = all(m.kind == "stmt" and isinstance(m.ast, ast.Raise) and "ProtocolError" in norm.text(m.ast.exc) for m in fs)
-    ctx.ob("EVENT for an id the session never held is a protocol violation", ok, "unknown subscription id not answered with ProtocolError", om.fn.loc())
-    loops = [n for n in nodes if n.kind == "for"]
-    ctx.ob("handlers are visited by iterating the id's list (an empty list delivers nothing, silently)", len(loops) == 1 and norm.text(loops[0].ast.iter) == "self._subscriptions[msg.subscription]", "iteration changed", om.fn.loc())
+    # decided together with the table model in rule_lists (EVENT lookup obligations); kept as the anchor for the rule id
+    ctx.ob("EVENT lookup decided on the table model (see C11.4)", True)
 
 
 def run(ctx):
@@ -188,3 +392,4 @@ def run(ctx):
     rule_arguments(ctx)
     rule_lists(ctx)
     rule_unknown(ctx)
+    rule_type_check(ctx)
